@@ -138,7 +138,27 @@ func execTaskAt(p TaskProg, tag string) (rec []string) {
 	case pn != "":
 		return append(rec, "read:panic")
 	case err != nil:
-		return append(rec, "read:error")
+		// "exactly what it returns when run alone" includes the error's text (taken now and again after the task's
+		// other work: an error value must not change once it has been returned)
+		msg := err.Error()
+		norm := msg
+		if c20Dir != "" {
+			norm = strings.ReplaceAll(norm, c20Dir, "<dir>") // the scenario directory differs from process to process
+		}
+		rec = append(rec, "read:error:"+canon.HashBytes([]byte(norm)))
+		defer func() {
+			if err.Error() != msg {
+				rec = append(rec, "read:error-text-changed-after-return")
+			}
+		}()
+		if len(p.MergeDoc) > 0 { // keep the process busy like a successful task would: read the second document
+			mr := simio.NewReader(p.MergeDoc, simio.ReadPlan{Rest: 256})
+			mr.Hook = hook
+			if _, e2, _ := api.Read(p.MergeReader, mr.Wrap()); e2 != nil {
+				rec = append(rec, "read2:error:"+canon.HashBytes([]byte(e2.Error())))
+			}
+		}
+		return rec
 	}
 	rec = append(rec, "read:ok:"+canon.Hash(s))
 	var other *astisub.Subtitles
@@ -735,6 +755,14 @@ func buildDocPool(cfg Config) (*docPool, error) {
 			p.docs = append(p.docs, corpus.Gen(f, root.Derive("c20-"+f, i), i))
 		}
 	}
+	// invalid documents (error paths run concurrently too): seeded mutations of small generated documents
+	mr := root.Derive("c20-invalid", 0)
+	for _, f := range []string{"srt", "vtt", "ssa", "ttml", "stl"} {
+		src := corpus.Gen(f, root.Derive("c20-inv-"+f, 0), 90)
+		for k := 0; k < 2; k++ {
+			p.docs = append(p.docs, corpus.Mutate(mr, src, k))
+		}
+	}
 	// documents with hundreds of cues (size thresholds inside readers and writers)
 	p.docs = append(p.docs, corpus.LargeTTML(root.Derive("c20-large-ttml", 0), 300), corpus.Large("srt", root.Derive("c20-large-srt", 0), 40000))
 	// TTML documents that differ only in their (unknown) language tag, pairwise sharing the primary subtag
@@ -814,6 +842,15 @@ func genTask(r *prng.R, pool *docPool, idx int, theme string) TaskProg {
 	for _, op := range t.Ops {
 		if op.Name == "merge" && t.MergeDoc == nil {
 			m := pool.docs[r.Intn(len(pool.docs))]
+			if r.Bool(0.6) { // usually a document of the same format (two WebVTT files with STYLE blocks, two TTML files with regions, ...)
+				var same []corpus.Doc
+				for _, x := range pool.docs {
+					if x.Format == d.Format {
+						same = append(same, x)
+					}
+				}
+				m = same[r.Intn(len(same))]
+			}
 			t.MergeDoc, t.MergeReader = m.Data, corpus.ReaderConfigs(m.Format)[0]
 		}
 	}
